@@ -1,7 +1,7 @@
 /-
   Driver for the C08 wrapper machine (Model/Tls08.lean) with the scripted engine.
 
-  case <id> tls08 <compat 0|1> [pop]
+  case <id> tls08 <compat 0|1> [pop | lockalways | fix1]
     eng <hs|read|write> <ok|wantread|wantwrite|zeroreturn|eoferror|error> <cin> <cout> [<hex> (read ok) | <n> (write ok)]
                           the engine log, read first, answers consumed in call order
     call <t> hs | call <t> recv <n> | call <t> recvinto <cap> | call <t> send <hex> | call <t> senditer <hex>*
@@ -9,6 +9,9 @@
   case <id> tls08blk  with ops `try recv|send <wantr|wantw|sysc|zeroret|reset>` prints the blocking variant's decision
   (`try recv wantr -> block R`, …).
   `pop` selects the seeded write loop (`writeLoopPop`), used only to check that the correspondence can fail.
+  `lockalways` / `fix1` select the WANT_READ branch as it was before any fix (`WrPolicy.always`: the send lock is taken even
+  when the outgoing BIO is empty) / with docs/C08-fix-1.patch only (`WrPolicy.pending`); used only to show that the
+  correspondence with the corresponding code holds and with the other versions fails.
 
   outputs, one line per observable action of the wrapper:
     ssl <t> hs|read <n>|write <data> in=<pending incoming BIO> -> <outcome…> out=<bytes appended to the outgoing BIO>
@@ -214,6 +217,14 @@ def runTls08 (model : String) (cfg ops : List String) : Option (List String) :=
   | "tls08", [c, "pop"] =>
     match parseBool c, collectEng ops with
     | some compat, some log => some (runTls08Ops true (St.init log compat) ops [])
+    | _, _ => some ["bad-op"]
+  | "tls08", [c, "lockalways"] =>
+    match parseBool c, collectEng ops with
+    | some compat, some log => some (runTls08Ops false { (St.init log compat) with wrPolicy := .always } ops [])
+    | _, _ => some ["bad-op"]
+  | "tls08", [c, "fix1"] =>
+    match parseBool c, collectEng ops with
+    | some compat, some log => some (runTls08Ops false { (St.init log compat) with wrPolicy := .pending } ops [])
     | _, _ => some ["bad-op"]
   | "tls08blk", [] => some (runBlkOps ops)
   | _, _ => none
